@@ -79,6 +79,11 @@ def run(ctx):
         for opts in (['-j'], ['-n', '-v']):
             cases.append({'kind': 'probes', 'role': 'server', 'banner': b'SSH-2.0-OpenSSH_8.9p1', 'opts': opts, 'port': None,
                           'lists': {'kex': kexs, 'key': [b'ssh-ed25519', b'rsa-sha2-512', b'ssh-rsa', b'ssh-ed25519'][i:], 'enc': [b'aes256-ctr', b'aes128-ctr', b'aes256-ctr'], 'mac': [b'hmac-sha2-512', b'hmac-sha2-256'], 'comp': comp}})
+    # client-to-server lists that differ from the server-to-client ones (legal per RFC 4253 section 7.1): the names advertised only there
+    for role, opts in (('server', ['-j']), ('server', ['-n']), ('client', ['-j'])):
+        cases.append({'kind': 'directions', 'role': role, 'banner': b'SSH-2.0-OpenSSH_8.9p1', 'opts': opts, 'port': None,
+                      'lists': {'kex': [b'curve25519-sha256'], 'key': [b'ssh-ed25519'], 'enc': [b'aes256-ctr'], 'mac': [b'hmac-sha2-256'], 'comp': [b'none'],
+                                'enc_c': [b'aes256-ctr', b'3des-cbc'], 'mac_c': [b'hmac-sha2-256', b'hmac-md5']}})
     s1cases = [{'cmask': rng.getrandbits(7) | (1 << rng.randrange(7)), 'amask': rng.getrandbits(7) & 0x7e | (1 << rng.randrange(1, 7)), 'opts': OPTS[i % len(OPTS)]} for i in range(10 if q else 128)]
     # masks without any named bit (nothing advertised in that category) are masks too
     s1cases += [{'cmask': 0, 'amask': 0x0c, 'opts': ['-n']}, {'cmask': 0x4c, 'amask': 0, 'opts': ['-j']}, {'cmask': 0, 'amask': 0, 'opts': ['-n', '-v']}, {'cmask': 0x80, 'amask': 0x01, 'opts': ['-n']}]
@@ -87,7 +92,7 @@ def run(ctx):
 
     def do(z, c):
         L = c['lists']
-        payload = P.kexinit(L['kex'], L['key'], L['enc'], L['mac'], L['comp'])
+        payload = P.kexinit(L['kex'], L['key'], L['enc'], L['mac'], L['comp'], enc_c=L.get('enc_c'), mac_c=L.get('mac_c'))
         if c['role'] == 'server':
             srv = P.new_ssh2_server(dict(banner=c['banner'], kexinit_override=payload, kex=[], key=[], enc=[], mac=[], hostkeys={}))
             try:
@@ -129,6 +134,9 @@ def run(ctx):
             continue
         nontriv.add((c['role'], c['kind'], tuple(c['opts'])))
         want_all = {k: [dec(x) for x in L[k]] for k in ('kex', 'key', 'enc', 'mac')}
+        only_c2s = [dec(x) for f, g in (('enc_c', 'enc'), ('mac_c', 'mac')) for x in L.get(f, []) if x not in L[g]]
+        if only_c2s and not all(('"%s"' % n) in res['out'] or (' %s ' % n) in res['out'] for n in only_c2s):
+            ctx.violation('client-to-server-lists-not-reported', 'the peer advertises %r only in its client-to-server lists; the report does not show them' % (only_c2s,), desc)
         want_nonempty = {k: [x for x in v if x.strip() != ''] for k, v in want_all.items()}
         if js:
             try:
